@@ -78,9 +78,11 @@ var c04Pool = []kval{
 	{"k_nhtm", func() interface{} { var p *htmler; return p }},               // typed nil pointer implementing HTMLer by value
 	{"k_nids", func() interface{} { var p *IDList; return p }},               // typed nil pointer to a named slice type with a value-receiver method
 	{"k_ids", func() interface{} { return &IDList{1, 2} }},
-	{"k_embid", func() interface{} { return WithNilEmbeddedID{} }},           // embeds a nil pointer whose type has ID / Slug fields (pathFor)
+	{"k_embid", func() interface{} { return WithNilEmbeddedID{} }},                              // embeds a nil pointer whose type has ID / Slug fields (pathFor)
 	{"k_fnhc", func() interface{} { return func(h NamedHelperContext) string { return "hc" } }}, // parameter convertible to, but not assignable from, plush.HelperContext
-	{"k_fnhc2", func() interface{} { return func(s string, m map[string]interface{}, h NamedHelperContext) string { return s } }},
+	{"k_fnhc2", func() interface{} {
+		return func(s string, m map[string]interface{}, h NamedHelperContext) string { return s }
+	}},
 }
 
 // expression-produced kinds (cannot be injected as data)
